@@ -25,6 +25,14 @@ def gen_pairs(rng, n, tier):
         tags = [trees.gen_tag(rng, 0, ctx=None) for _ in range(rng.randint(1, 5))]
         for t in tags:
             t["ctx"] = None
+        if rng.random() < 0.3:
+            # white space the lexer skips (TAB, LF, CR) in the middle of raw text of X: the text is then lexed as
+            # several pieces, and both spellings must still mean the same
+            texts = [i for i, e in enumerate(x) if isinstance(e, str) and len(e) >= 2]
+            for i in texts[: rng.randint(1, 2)]:
+                cut = rng.randint(1, len(x[i]) - 1)
+                if x[i][cut - 1] != "\\":
+                    x[i] = x[i][:cut] + rng.choice(["\t", "\n", "\r", "\t\n"]) + x[i][cut:]
         yield {"x": x, "tags": tags, "style": rng.choice(trees.STYLES), "inside": rng.random() < 0.4}
 
 
